@@ -206,14 +206,19 @@ CAPTURE = [
     _cap("while_body", ["v = 5"], ["t = 0", "while t < 1 {", "  t += v", "}", "return t"], "int"),
     _cap("from_body", ["v = 5"], ["t = 0", "from 0 to 2 {", "  t += v", "}", "return t"], "int"),
     _cap("from_lower_bound", ["v = 1"], ["t = 0", "from v to 3 {", "  t += 1", "}", "return t"], "int"),
+    # (an index / key that is itself a captured variable — `q[v]` — is refused by the pinned compiler with "`int`
+    #  cannot be used as an index here": a rejection of a well-typed program, outside the twenty properties)
     _cap("nested_blocks_depth3", ["v = 5", "c = true"], ["t = 0", "while t < 1 {", "  if c {", "    from 0 to 1 {", "      t += v", "    }", "  }", "}", "return t"], "int"),
-    _cap("index_expression", ["v = 1", "l: [int...] = [4, 5]"], ["q: [int...] = [7, 8]", "r = q[v]", "return r"], "int"),
-    _cap("index_assign_index", ["v = 1"], ["q: [int...] = [7, 8]", "q[v] = 3", "r = q[1]", "return r"], "int"),
     _cap("index_opassign_value", ["v = 5"], ["q: [int...] = [7, 8]", "q[0] += v", "r = q[0]", "return r"], "int"),
-    _cap("map_key", ["v = \"a\""], ["q = map[str, int] { \"a\": 1 }", "r = (q[v]) or 0", "return r"], "int"),
     _cap("recursion_argument", ["v = 2"], ["h = fn(n: int) -> int {", "  if n <= 0 {", "    return 0", "  }", "  return self(n - v) + 1", "}", "return h(4)"], "int"),
     _cap("nested_closure_in_else", ["v = 5", "c = false"], ["if c {", "  return 0", "} else {", "  h = fn() -> int {", "    return v", "  }", "  return h()", "}"], "int"),
     _cap("return_in_while_in_if", ["v = 5", "c = true"], ["if c {", "  while c {", "    return v", "  }", "}", "return 0"], "int"),
+    _cap("map_literal_key", ["v = \"w\""], ["q = map[str, int] { v: 1 }", "return q.len()"], "int"),
+    _cap("map_literal_int_key", ["v = 4"], ["q = map[int, int] { v: 1, 2: v }", "return q.len()"], "int"),
+    _cap("method_chain_second_call_argument", ["v = \"l\"", "w = \"L\""], ["t = \"hello\"", "return t.reverse().replace(v, w)"], "str"),
+    _cap("method_chain_third_call_argument", ["v = 1"], ["t = \"hello\"", "return t.reverse().reverse().substring(0, v)"], "str"),
+    _cap("method_chain_on_object_second_argument", ["v = 5", "k = Kc(1)"], ["j = Kc(2)", "return k.addv(1).pow(1).to_int() + j.addv(1).pow(1).to_int().pow(v).to_int()"], "int"),
+    _cap("list_index_of_argument", ["v = 5", "l: [int...] = [4, 5]"], ["return (l.index_of(v)) or 9"], "int"),
     _cap("callback_of_map", ["v = 10", "l: [int...] = [1, 2, 3]"], ["r = l.map(fn(a: int) -> int {", "  return a * v", "})", "return r[2]"], "int"),
     _cap("callback_of_filter", ["v = 2", "l: [int...] = [1, 2, 3]"], ["r = l.filter(fn(a: int) -> bool {", "  return a >= v", "})", "return r.len()"], "int"),
 ]
@@ -351,6 +356,9 @@ def run(ctx):
             rejected += 1
             if res.get("compiler_panic"):
                 comp_panics += 1
+            elif res.get("kind") == "cat" and str(res.get("name", "")).startswith("capture_"):
+                # the capture catalogue is made of legal programs: one that stops compiling observes nothing
+                out.inconclusive.append("capture catalogue program %s is no longer accepted by the compiler" % res["name"])
             continue
         if "inconclusive" in res:
             out.inconclusive.append("%s: %s" % (res["name"], res["inconclusive"]))
